@@ -119,6 +119,21 @@ func H_Builtins() {
 	vrt.Assume(e == nil)
 	n4, e := p.CreateScope(nil)
 	vrt.Assume(e == nil)
+	// n5: created ON THE PROVIDER with a context derived from another scope's
+	// context (an injected Provider inside a request does exactly that): its own
+	// value, its own cancel, n1's values underneath
+	c5, cancel5 := context.WithCancel(context.WithValue(n1.Context(), valKey{6}, "six"))
+	n5, e := p.CreateScope(c5)
+	vrt.Assume(e == nil)
+	vrt.Assert(n5.Context().Value(valKey{6}) == "six" && n5.Context().Value(valKey{1}) == "one", "C18.value_lost", "a scope created on the provider from a scope-derived context lost a value of the context it was given")
+	if s5, err := godi.FromContext(n5.Context()); true {
+		vrt.Assert(err == nil && s5 == n5, "C18.fromcontext", "FromContext on the context of a scope created from a scope-derived context is not that scope")
+	}
+	cancel5()
+	vrt.Quiesce()
+	vrt.Assert(n5.Context().Err() != nil, "C18.cancel_not_propagated", "cancelling the context given to provider.CreateScope (derived from a scope context) did not cancel the new scope's context")
+	vrt.Assert(n1.Context().Err() == nil, "C18.cancel_leaked", "cancelling a context derived from a scope's context cancelled that scope")
+	n5.Close()
 	scopes := []godi.Scope{nil, n1, n2, n3, n4}
 	user := func(s godi.Scope) bool {
 		for _, x := range scopes[1:] {
@@ -202,7 +217,7 @@ func H_Builtins() {
 	}
 	if initForm == 1 {
 		// initializers ran once per scope (root scope included), each with its own scope
-		vrt.Assert(len(kit.VoidLog) == 5, "C18.initializer_runs", "initializer ran", len(kit.VoidLog), "times for 4 scopes + root")
+		vrt.Assert(len(kit.VoidLog) == 6, "C18.initializer_runs", "initializer ran", len(kit.VoidLog), "times for 5 scopes + root")
 		for i, vc := range kit.VoidLog {
 			if i == 0 {
 				vrt.Assert(vc.In.HasScope && vc.In.Scope == rc, "C18.initializer_scope", "the root scope's initializer did not receive the root scope")
